@@ -206,7 +206,7 @@ INFO["C01"]["rule"] += " Plus: 5-6 statement 'wide' programs under every schedul
 
 # families added after seed waves 4-6 (see DESIGN.md section 10)
 _MORE = {
-    "C01": "twin constants (1/True/1.0, 0/False/0.0, 2/2.0) as argument, keyword, flag, operand, return member; non-commutative operands with the constant on either side; every program with a defaulted parameter: executor run with explicit arguments, then a defaulted call on the same object.",
+    "C01": "twin constants (1/True/1.0, 0/False/0.0, 2/2.0) as argument, keyword, flag, operand, return member; non-commutative operands with the constant on either side; every program with a defaulted parameter: executor run with explicit arguments, then a defaulted call on the same object; int keys and negative positions in index paths; two awaits of one AsyncDAG object in flight.",
     "C02": "parallel edges (one consumer uses a producer twice through different index paths / as argument and flag); tuple keys; defaulted DAG parameters incl. executor-then-call; ghost completions (a task over while its node runs) and stray completions are part of the controller.",
     "C03": "selections by a tag equal to another node's id; pairs of targets / exclusions / roots named descendant-first; declaration-order metamorphic oracle for the debug nodes a sub-graph run pulls in; nested programs with setup nodes judged per DAG object.",
     "C04": "configuration variants (library imported under other defaults); call-form declarations xn(f, **options); AsyncDAG awaited next to a sibling task; starvation monitor on both kinds of wait with a small default executor.",
@@ -223,7 +223,7 @@ _MORE = {
     "C16": "decorated methods across threads; rendezvous of two calls; first calls of a DAG with pending setup nodes from two threads; two pooled calls; failing nested builds; every module-level lock of tawazi owned by the baton scheduler.",
     "C17": "histories of awaits on one AsyncDAG object (HIST oracle); driver serves only running nodes and reports starvation; internal errors of the async flavour.",
     "C18": "keyword / indexed / flag dependencies in the round trips; defaulted argument not repeated at restart; executor constructed before the file is (re)written.",
-    "C19": "tag equal to another node's id, ambiguous tag shadowing an id; chains of setup nodes composed after a call / after setup() / before anything ran; identity of carried setup results.",
+    "C19": "tag equal to another node's id, ambiguous tag shadowing an id; chains of setup nodes composed after a call / after setup() / before anything ran; identity of carried setup results; a refused compose leaves the original untouched; nodes described with unpack_to / twz_unpack_to as outputs and inputs of the composed DAG.",
     "C20": "factory-made DAG objects sharing a qualname; thirteen calls of one inner DAG; stateful node functions (flat vs nested differential); defaulted parameters forwarded to inner DAGs; pass-through parameters; nested composed DAGs.",
 }
 for _c, _t in _MORE.items():
